@@ -60,7 +60,13 @@ impl SequenceNumberSet {
                     let bitmap_num = delta_n / 32;
                     let mask = 1 << (31 - delta_n % 32);
                     if self.set.bitmap[bitmap_num] & mask == mask {
-                        return Some(self.set.base + delta_n as i64);
+                        // members beyond i64::MAX - 1 cannot be sequence numbers (and `+ 1` is
+                        // applied to every member later on): the iteration ends there
+                        return self
+                            .set
+                            .base
+                            .checked_add(delta_n as i64)
+                            .filter(|sn| *sn < i64::MAX);
                     }
                 }
                 None
